@@ -361,6 +361,8 @@ class Evaluator(object):
                 return env[e.id]
             if e.id in ("None", "True", "False"):
                 return K({"None": None, "True": True, "False": False}[e.id])
+            if e.id in self._locals_of(fi):
+                raise _Raise("UnboundLocalError")       # a local of this function read before any assignment on this path
             return self.global_value(e, fi)
         if isinstance(e, ast.Attribute):
             if isinstance(e.value, ast.Name) and e.value.id in env:
@@ -374,6 +376,8 @@ class Evaluator(object):
                     return o.attrs[name]
                 if isinstance(o, Opaque):
                     return o.attrs.get(e.attr, Opaque("%s.%s" % (o.label, e.attr)))
+                if self.lenient and isinstance(o, Sym):
+                    return Sym("%s.%s" % (o.label, e.attr))        # attribute of an unknown (global / opaque) value
                 raise AnalysisError("attribute %s of %r not modelled" % (e.attr, o))
             if isinstance(e.value, (ast.Attribute, ast.Call)):
                 try:
@@ -431,6 +435,8 @@ class Evaluator(object):
                     raise _Raise(type(ex).__name__)
             if isinstance(d, D) and isinstance(k, (D, L)):
                 raise _Raise("TypeError")
+            if isinstance(d, D) and not d.items and isinstance(k, (Sym, Opaque)):
+                raise _Raise("KeyError")          # nothing is in an empty dictionary
             raise AnalysisError("subscript not modelled: %s" % dump(e))
         if isinstance(e, ast.BoolOp):
             last = None
@@ -513,12 +519,51 @@ class Evaluator(object):
             return Sym("opaque:" + dump(e)[:60])
         raise AnalysisError("expression not modelled by the shape interpreter: %s" % dump(e))
 
+    def _locals_of(self, fi):
+        """names bound somewhere in the function (assignment, loop / with / except target): locals in Python's scoping"""
+        cache = getattr(fi, "_e7_locals", None)
+        if cache is None:
+            cache = set()
+            stack = list(fi.node.body)
+            while stack:
+                n = stack.pop()
+                if isinstance(n, (ast.FunctionDef, ast.AsyncFunctionDef, ast.ClassDef)):
+                    cache.add(n.name)
+                    continue
+                if isinstance(n, ast.Lambda):
+                    continue
+                if isinstance(n, ast.Name) and isinstance(n.ctx, (ast.Store, ast.Del)):
+                    cache.add(n.id)
+                elif isinstance(n, ast.ExceptHandler) and n.name:
+                    cache.add(n.name)
+                elif isinstance(n, (ast.Global, ast.Nonlocal)):
+                    pass
+                elif isinstance(n, (ast.ListComp, ast.SetComp, ast.DictComp, ast.GeneratorExp)):
+                    continue          # comprehension targets live in their own scope
+                stack.extend(ast.iter_child_nodes(n))
+            for n in ast.walk(fi.node):
+                if isinstance(n, (ast.Global, ast.Nonlocal)):
+                    cache -= set(n.names)
+            cache -= set(fi.params)
+            fi._e7_locals = cache
+        return cache
+
     def global_value(self, e, fi):
         try:
             v = self.prog.const(fi.module, e)
         except AnalysisError:
+            if isinstance(e, ast.Name) and self.prog.resolve(fi.module, e) is None and not self._enclosing_binds(fi, e.id):
+                raise _Raise("NameError")       # bound neither in the function, nor in an enclosing one, nor at module level, nor a builtin
             return Sym("global:" + dump(e), truthy=True)
         return K(v)
+
+    def _enclosing_binds(self, fi, name):
+        o = getattr(fi, "outer", None)
+        while o is not None:
+            if name in o.params or name in self._locals_of(o):
+                return True
+            o = getattr(o, "outer", None)
+        return False
 
     def conc(self, v):
         """concrete stand-in used for comparisons only"""
@@ -636,6 +681,21 @@ class Evaluator(object):
                 return K(_re.sub(args[0].v, args[1].v, args[2].v))     # constant folding on literals
             except _re.error:
                 raise _Raise("re.error")
+        if isinstance(f, ast.Call):
+            # the callee is itself the result of a call (getattr(obj, name)()): evaluate it; an opaque callable is recorded
+            fv = self.expr(f, env, fi)
+            if isinstance(fv, Opaque):
+                if not hasattr(self, "opaque_calls"):
+                    self.opaque_calls = []
+                self.opaque_calls.append((fv.label, "__call__", args, kwargs))
+                rv = fv.attrs.get("()")
+                return rv if rv is not None else Opaque("%s()" % fv.label)
+        if isinstance(f, ast.Name) and f.id not in env and f.id in self._locals_of(fi):
+            raise _Raise("UnboundLocalError")
+        if isinstance(f, ast.Name) and f.id not in env and self.prog.resolve(fi.module, f) is None and not self._enclosing_binds(fi, f.id):
+            raise _Raise("NameError")
+        if fname in ("getattr", "hasattr", "setattr") and len(args) >= 2 and isinstance(args[1], (Opaque, Obj, D, L)):
+            raise _Raise("TypeError")           # attribute name must be a string
         if isinstance(f, ast.Name) and f.id in env and isinstance(env[f.id], (Opaque, Sym)) and \
                 self.prog.resolve(fi.module, f) is None:
             # a callable value held in a local: the call is recorded, its result is opaque
@@ -644,6 +704,17 @@ class Evaluator(object):
             self.opaque_calls.append((env[f.id].label, "__call__", args, kwargs))
             rv = env[f.id].attrs.get("()") if isinstance(env[f.id], Opaque) else None
             return rv if rv is not None else Opaque("%s()" % env[f.id].label)
+        if fname in ("getattr", "hasattr") and len(args) >= 2 and isinstance(args[0], Opaque) and isinstance(args[1], K) \
+                and isinstance(args[1].v, str) and getattr(args[0], "closed", False):
+            # an opaque object declared with a closed attribute set (rules building a bean): attribute presence is decided
+            has = args[1].v in args[0].attrs
+            if fname == "hasattr":
+                return K(has)
+            if has:
+                return args[0].attrs[args[1].v]
+            if len(args) == 3:
+                return args[2]
+            raise _Raise("AttributeError")
         if fname == "str" and len(args) == 1:
             a = args[0]
             if isinstance(a, K):
